@@ -85,7 +85,33 @@ func Judge(o *Obs) []Failure {
 	}
 	// C10: every reachable node and out-of-node value loads
 	if o.Reach != nil && len(o.Reach.Problems) > 0 {
-		out = append(out, Failure{"C10", "C10/dangling/" + tag, "a live node or value refers to data that does not load", detail + " problems=" + strings.Join(o.Reach.Problems, "; ")})
+		// what dangles, and in which kind of transaction: the signature must tell one mechanism from another
+		kind := "other"
+		allChild := true
+		for _, p := range o.Reach.Problems {
+			if !(strings.Contains(p, "child ") && strings.Contains(p, "has no registry entry")) {
+				allChild = false
+			}
+		}
+		if allChild {
+			kind = "child-without-registry-entry"
+		}
+		hasRoot, hasAdded := false, false
+		for _, n := range o.Res.WriteSet {
+			if n.Action == "root" {
+				hasRoot = true
+			}
+			if n.Action == "add" {
+				hasAdded = true
+			}
+		}
+		shape := "existing-root"
+		if hasRoot && hasAdded {
+			shape = "new-root+added"
+		} else if hasRoot {
+			shape = "new-root"
+		}
+		out = append(out, Failure{"C10", "C10/dangling/" + tag + "/" + kind + "/" + shape, "a live node or value refers to data that does not load", detail + " problems=" + strings.Join(o.Reach.Problems, "; ")})
 	}
 	// C11: orphans, only for histories whose cleanup was allowed to finish (no fault at or after the commit point's cleanup)
 	st := o.StepAtFault()
